@@ -7,10 +7,15 @@ CLAIMED = {
     'C14': ('DESIGN.md 4 C14',
             'Deductive proof, for all schedules/segments/loop counts, that create_emsg_boxes returns exactly the scheduled '
             'events of the segment (contiguous ids, right times, v0 delta / v1 absolute); obligations generated from the '
-            'real source text and discharged by z3/cvc5.',
+            'real source text and discharged by z3/cvc5. Also: create_manifest_context lists exactly the schedule; create_binary_signal '
+            'hands the scheduled event id / PTS / break duration to the encoder within the field widths; SCTE-35 encode then parse '
+            'is the identity with a valid CRC-32 for SpliceTime, BreakDuration, SpliceInsert, the segmentation / time descriptor '
+            'bodies and the whole splice_insert signal with one segmentation descriptor (section, command and descriptor-loop '
+            'lengths back-patched correctly), over a bit trace.',
             'Trusted: the pyvc VC generator and its Python-semantics encoding; z3/cvc5; EventMessageBox constructor modelled '
-            'as a record of its keyword arguments; payload generation abstract. SCTE-35 binary encoding and manifest-side '
-            'listing: see evidence not_covered.',
+            'as a record of its keyword arguments; payload generation abstract; BitsFieldWriter/Reader (repository helpers over '
+            'bitstring) modelled by a bit trace; crccheck assumed to satisfy the CRC residue property. Known findings: 8-bit avail '
+            'counters, 33-bit break duration. See evidence not_covered for the SCTE-35 structures outside the proved ones.',
             'contract-based deductive verification (AST->VC generator, z3 + cvc5), native replay of counter-models'),
     'C02': ('DESIGN.md 4 C02',
             'Deductive proof of the exact characterisation of Representation.get_segment_index (first segment in scan order '
